@@ -18,6 +18,16 @@ def extra_pairs():
             out.append((tmpl % 'plain', page))
     out.append(('<p>Counter: <span>visits <script>var n = 1;</script> and counting</span> today.</p>', '<p>Counter:  today.</p>'))
     out.append(('<div><b><script src="a.js"></script></b><style>p{}</style> x</div>', '<div> x</div>'))
+    # embedded content whose text looks like what the string post-processing of the differ handles (end tags followed by a blank,
+    # markers, spacer strings, link sentinels): it must come out exactly as it went in
+    for blob in ('<script>var t = "<ul><li>a</li> <li>b</li></ul>";</script>', '<style>li:after { content: "</li> " } /* </p> </ul>  */</style>',
+                 '<script>x = \'<ins class="wm-diff">\' + "~EMPTY~" + "\\nSPACER" + " Link: ";</script>', '<script>  lead(); \n\n  trail();  </script>',
+                 '<textarea>a</li> b &lt;/li&gt; c</textarea>', '<template><ul><li>t</li> <li>u</li></ul></template>'):
+        page = '<ul><li>one</li> <li>two</li></ul>%s<p>after</p>' % blob
+        out.append((page, page))
+        out.append((page, page.replace('after', 'after changed')))
+        out.append(('<p>after</p>', page))
+        out.append((page, '<p>after</p>'))
     return out
 
 
@@ -60,10 +70,24 @@ def fragment_correspondence(rep, ctx):
 
 
 def run(rep, ctx):
+    from common import load_known_findings
     run_render(rep, ctx, 'c09', [('active-content', rc.c09_failures)], n_quick=350, n_thorough=6000, extra_pairs=extra_pairs(),
                corr_fraction=0.5)
     if ctx['model_available']:
         fragment_correspondence(rep, ctx)
+    # ---- listed known findings: replayed every run, reported while they still fail
+    for kf in load_known_findings('C09'):
+        inp = kf['input']
+        try:
+            r = rc.render(inp['a_text'], inp['b_text'], include=inp.get('include', 'all'))
+            fails = rc.c09_failures(inp['a_text'], inp['b_text'], r)
+        except Exception as e:  # noqa
+            fails = ['raised %r' % e]
+        rep.count(('known', inp['a_text'], inp['b_text']), True)
+        if fails:
+            rep.known_finding(kf['what'])
+        else:
+            rep.extra.setdefault('known_findings_no_longer_failing', []).append(kf['id'])
 
 
 def replay(rep, data):
